@@ -283,6 +283,16 @@ func (x *Exec) randomOp(maxEnt int) (GenOp, bool) {
 			qids = append(qids, id)
 		}
 		sort.Ints(qids)
+		if x.Cfg.Grid >= 50 && len(vs) > 0 && x.rng.Intn(100) < 25 {
+			// arity driver: a quarter of the steps on a locked world attempt the least-attempted structural target
+			if o, ok := x.gridOpLocked(vs, mk, fill); ok {
+				if n := len(x.gqueue); n > 0 {
+					o = x.gqueue[n-1]
+					x.gqueue = nil
+				}
+				return o, true
+			}
+		}
 		r := x.rng.Intn(100)
 		switch {
 		case r < 55:
@@ -308,6 +318,17 @@ func (x *Exec) randomOp(maxEnt int) (GenOp, bool) {
 			// any structural operation: kind stays as drawn, excluding Shrink (undefined while locked)
 			if kind >= 94 && kind < 99 {
 				kind = x.rng.Intn(90)
+			}
+			if x.Cfg.Grid > 0 && len(vs) > 0 && len(x.gqueue) == 0 {
+				// coverage-guided: the structural (method, tuple) pair least attempted on a locked world
+				if o, ok := x.gridOpLocked(vs, mk, fill); ok {
+					if n := len(x.gqueue); n > 0 {
+						// a scripted scenario: its preparation cannot succeed on a locked world; attempt the target itself
+						o = x.gqueue[n-1]
+						x.gqueue = nil
+					}
+					return o, true
+				}
 			}
 		}
 	} else if x.Cfg.Queries > 0 && x.rng.Intn(12) == 0 {
